@@ -159,8 +159,8 @@ Qed.
 Lemma bytes_ok_take_N : forall n bs h t, bytes_ok bs = true -> take_N n bs = Some (h, t) ->
   bytes_ok t = true.
 Proof.
-  unfold take_N. intros n bs h t B T. destruct (n <=? N.of_nat (length bs)); [|discriminate].
-  eapply bytes_ok_take; eauto.
+  intros n bs h t B T. apply take_N_spec in T. destruct T as [E _]. subst bs.
+  rewrite bytes_ok_app in B. apply andb_true_iff in B. apply B.
 Qed.
 
 Lemma bytes_ok_varint : forall bs v t, bytes_ok bs = true -> varint_dec bs = Some (v, t) ->
